@@ -25,9 +25,21 @@ pub fn reflink(src: &PathAndMetadata, dest: &PathAndMetadata, log: &dyn Log) -> 
     let result = || -> io::Result<()> {
         let dest_path_buf = dest.path.to_path_buf();
 
+        // Once the data are shared, the file has been deduplicated. If its metadata cannot
+        // be restored after that, it is not a failure of the command: there is nothing to undo,
+        // and the file must be counted as processed.
+        let warn_metadata_not_kept = |result: io::Result<()>| {
+            if let Err(e) = result {
+                log.warn(format!("Failed to keep metadata for {dest}: {e}"))
+            }
+        };
         if cfg!(any(target_os = "linux", target_os = "android")) && !crosstest() {
             linux_reflink(src, dest, log)?;
-            restore_metadata(&dest_path_buf, &dest.metadata, Restore::TimestampOnly)
+            warn_metadata_not_kept(restore_metadata(
+                &dest_path_buf,
+                &dest.metadata,
+                Restore::TimestampOnly,
+            ));
         } else {
             #[cfg(unix)]
             let dest_xattrs = get_xattrs(&dest_path_buf)?;
@@ -35,14 +47,15 @@ pub fn reflink(src: &PathAndMetadata, dest: &PathAndMetadata, log: &dyn Log) -> 
             safe_reflink(src, dest, log)?;
 
             #[cfg(unix)]
-            restore_xattrs(&dest_path_buf, dest_xattrs)?;
+            warn_metadata_not_kept(restore_xattrs(&dest_path_buf, dest_xattrs));
 
-            restore_metadata(
+            warn_metadata_not_kept(restore_metadata(
                 &dest_path_buf,
                 &dest.metadata,
                 Restore::TimestampOwnersPermissions,
-            )
+            ));
         }
+        Ok(())
     }()
     .map_err(|e| {
         io::Error::new(
